@@ -25,6 +25,7 @@ var registry = map[string]entry{
 	"C05": {"exploration", props.C05},
 	"C06": {"exploration", props.C06},
 	"C07": {"exploration", props.C07},
+	"C08": {"fault_enumeration", props.C08},
 	"C11": {"exploration", props.C11},
 	"C12": {"exploration", props.C12},
 	"C13": {"exploration", props.C13},
@@ -92,6 +93,12 @@ func main() {
 func dispatchChild(id string, args []string) bool {
 	if len(args) >= 2 && args[0] == "--child-ro" {
 		os.Exit(props.ChildRO(args[1]))
+	}
+	if len(args) >= 2 && args[0] == "--child-crash" {
+		os.Exit(props.ChildCrash(args[1]))
+	}
+	if len(args) >= 2 && args[0] == "--child-verify" {
+		os.Exit(props.ChildVerify(args[1]))
 	}
 	if len(args) >= 1 && args[0] == "--child-lock" {
 		os.Exit(props.ChildLock())
